@@ -44,6 +44,7 @@ type vocWorld struct {
 	nextID  int
 	slots   map[int32]bool
 	held    []*FDOperator // operators taken by "drain" and never used
+	mid     func()        // "dclose": runs once inside the next Inputs callback, i.e. while the poller holds that slot's token
 }
 
 func (w *vocWorld) slotObs(idx int32) string {
@@ -94,6 +95,10 @@ func (w *vocWorld) open() (string, string) {
 	id := vc.id
 	c.operator.Inputs = func(vs [][]byte) [][]byte {
 		w.ran = append(w.ran, id)
+		if m := w.mid; m != nil {
+			w.mid = nil
+			m()
+		}
 		return orig(vs)
 	}
 	w.conns = append(w.conns, vc)
@@ -181,6 +186,76 @@ func (w *vocWorld) exec(toks []string) (op string, reply string) {
 			ran = fmt.Sprint(w.ran[0])
 		}
 		return fmt.Sprintf("dispatch %d", o.index), fmt.Sprintf("ok ran=%s %s", ran, w.obs())
+	case "dclose":
+		// dispatch of the next event with the owner's Close() running CONCURRENTLY, started while the poller holds the slot's
+		// token (inside Inputs, before the readv on operator.FD).  While the closer is at work a probe descriptor pair is opened
+		// and filled: the kernel hands out the lowest free number, so if the closed connection's descriptor number has been
+		// given back before the dispatch ended the probe gets it and the stale readv eats the probe's bytes (C10: descriptor reuse).
+		if !w.inBatch || w.bpos >= len(w.batch) {
+			return op, "skip"
+		}
+		ev := w.batch[w.bpos : w.bpos+1]
+		o := *(**FDOperator)(unsafe.Pointer(&ev[0].data))
+		var vc *vocConn
+		for _, c := range w.conns {
+			if !c.closed && c.op == o {
+				vc = c
+			}
+		}
+		if vc == nil || atomic.LoadInt32(&o.state) != 1 {
+			return op, "skip"
+		}
+		w.bpos++
+		w.ran = w.ran[:0]
+		closedCh := make(chan struct{})
+		probe := []int{-1, -1}
+		w.mid = func() {
+			go func() {
+				vc.c.Close()
+				close(closedCh)
+			}()
+			select {
+			case <-closedCh:
+			case <-time.After(3 * time.Millisecond):
+			}
+			if fds, err := syscall.Socketpair(syscall.AF_UNIX, syscall.SOCK_STREAM, 0); err == nil {
+				probe = fds[:]
+				syscall.Write(fds[1], []byte("PROBE"))
+			}
+		}
+		w.p.handler(ev)
+		started := w.mid == nil
+		w.mid = nil
+		if !started {
+			// the event was skipped (cannot happen for a live owner whose token is free): run the close anyway
+			vc.c.Close()
+			close(closedCh)
+		}
+		select {
+		case <-closedCh:
+		case <-time.After(3 * time.Second):
+			return fmt.Sprintf("dclose %d slot=%d", vc.id, vc.idx), "hang"
+		}
+		vc.closed = true
+		syscall.Close(vc.peer)
+		verdict := "intact"
+		if probe[0] >= 0 {
+			buf := make([]byte, 16)
+			n, _, _ := syscall.Recvfrom(probe[0], buf, syscall.MSG_PEEK|syscall.MSG_DONTWAIT)
+			if n != 5 {
+				verdict = fmt.Sprintf("eaten(fd=%d,left=%d)", probe[0], n)
+			}
+			syscall.Close(probe[0])
+			syscall.Close(probe[1])
+		}
+		ran := "none"
+		if len(w.ran) > 0 {
+			ran = fmt.Sprint(w.ran[0])
+		}
+		if verdict != "intact" {
+			return fmt.Sprintf("dclose %d slot=%d", vc.id, vc.idx), "BYSTANDER-FAIL bytes of a descriptor opened while connection " + fmt.Sprint(vc.id) + "'s event was being dispatched were consumed on behalf of that (closed) connection: " + verdict
+		}
+		return fmt.Sprintf("dclose %d slot=%d", vc.id, vc.idx), fmt.Sprintf("ok ran=%s probe=intact %s", ran, w.obs())
 	case "endbatch":
 		if !w.inBatch || w.bpos < len(w.batch) {
 			return op, "skip"
@@ -362,7 +437,7 @@ func VerifOpCacheMain(args []string) int {
 			// op lines carry annotations (slot=…, fetched indices): strip them for re-execution
 			t := strings.Fields(line)
 			switch t[0] {
-			case "open", "fetch", "endbatch", "check", "drain":
+			case "open", "fetch", "endbatch", "check", "drain", "dclose":
 				t = t[:1]
 			case "dispatch":
 				t = t[:1]
@@ -412,6 +487,9 @@ func VerifOpCacheMain(args []string) int {
 			for j := 1 + r.Intn(2); j > 0; j-- {
 				emit(w, "open")
 			}
+			if r.Intn(2) == 0 {
+				emit(w, "dclose")
+			}
 		} else if r.Intn(3) == 0 {
 			emit(w, "drain")
 		}
@@ -440,6 +518,9 @@ func VerifOpCacheMain(args []string) int {
 				line = "fetch"
 			case k < 14:
 				line = "dispatch"
+				if r.Intn(6) == 0 {
+					line = "dclose"
+				}
 			case k < 16:
 				line = "endbatch"
 			case k < 18:
